@@ -265,7 +265,7 @@ Proof. exact concurrent_example. Qed.
 
 
 (* ================= all operations under both locks (Model/OciLocks.v) =================
-   Tag, Untag, SaveIndex, Push (shared store lock) and Delete (exclusive) as programs of atomic
+   Tag, Untag, SaveIndex, Push (shared store lock), Delete and GC (exclusive) as programs of atomic
    steps on the resolver map, index.json, the blob files, the RWMutex and indexLock. *)
 
 (* safety of EVERY program that respects the lock discipline ([check]: store lock held around
@@ -294,13 +294,16 @@ Theorem C08_programs_respect_lock_discipline :
                                   KSave SLock; KSave SSnap; KSave SWrite; KSave SUnlock; KRUnlock]) /\
    (forall k, prog_push k false = [KRLock; KCreate k; KRUnlock]) /\
    (forall k, prog_delete k = [KWLock; KRegDelete k; KSave SLock; KSave SSnap; KSave SWrite; KSave SUnlock;
-                               KRemove k; KWUnlock])) /\
+                               KRemove k; KWUnlock]) /\
+   (forall g, prog_gc g = [KWLock; KRegGC g; KSave SLock; KSave SSnap; KSave SWrite; KSave SUnlock;
+                           KSweep g; KWUnlock])) /\
   forall ops, check ts0 (prog_of_lops ops) = true.
 Proof. exact (conj programs_explicit lops_checked). Qed.
 Print Assumptions C08_programs_respect_lock_discipline.
 
-(* hence: any number of threads running any lists of Tag / Untag / SaveIndex / Push / Delete
-   calls on a store at rest, every schedule *)
+(* hence: any number of threads running any lists of Tag / Untag / SaveIndex / Push / Delete / GC
+   calls on a store at rest (GC call g keeps the references and blobs of the nodes [ll_keep s g],
+   any family of sets), every schedule *)
 Theorem C08_store_operations_quiescent :
   forall (s0 : lstate) (sched : list (nat * (list nat * list nat))),
     IxInv (ll_live s0) ->
@@ -346,8 +349,8 @@ Print Assumptions C08_seeded_lock_orders_rejected.
    addressing; the harness builds its DAGs bottom-up) IndexAll and the subject-chain walk of GC
    do not depend on their fuel above N, and after any history on nodes below N Delete's queue
    loop never stops for lack of fuel: on such universes the fuelled model is the loop of the Go
-   code.  (The rounds of GC's referrer pass have no such theorem: their fuel S |refMap| is an
-   upper bound by the argument "every continued round keeps one more entry".) *)
+   code.  (The rounds of GC's referrer pass: every continued round keeps one more entry, so S |refMap| rounds suffice
+   for every order: C08_fuel_gc_rounds_sufficient.) *)
 Theorem C08_fuel_index_all_sufficient :
   forall (N : nat) (mf : nat -> bool) (succs : nat -> list nat),
     (forall k c, In c (succs k) -> c < k) ->
@@ -373,6 +376,14 @@ Theorem C08_fuel_delete_sufficient :
     snd (st_delete N mf succs subj fH cfg o k s) <> ROutOfFuel.
 Proof. exact delete_fuel_sufficient. Qed.
 Print Assumptions C08_fuel_delete_sufficient.
+
+Theorem C08_fuel_gc_rounds_sufficient :
+  forall (N : nat) (mf : nat -> bool) (succs : nat -> list nat) (subj : nat -> option nat) (sk : nat -> bool)
+         bl m os a fuel,
+    length m < fuel ->
+    gc_rounds N mf succs subj sk (S (length m)) bl m os a = gc_rounds N mf succs subj sk fuel bl m os a.
+Proof. exact gc_rounds_fuel_sufficient. Qed.
+Print Assumptions C08_fuel_gc_rounds_sufficient.
 
 Example C08_fuel_hypotheses_satisfiable :
   (forall k c, In c (ex_succs k) -> c < k) /\ Forall (fun oo => op_below 3 (fst oo)) ex_hist.
